@@ -316,6 +316,13 @@ impl<'a> Gen<'a> {
     }
 
     fn bad_key(&mut self, k: KeyTy) -> Option<String> {
+        if matches!(k, KeyTy::Str) {
+            return None;
+        }
+        // one in four: a key that quoting / escaping routines rewrite (the report has to name the key itself)
+        if self.rng.chance(1, 4) {
+            return Some((*self.rng.pick(&["a\"b", "C:\\x", "1\t", "1\n2", "e\u{301}e", "1\u{200b}", "'1'", "nul\u{0}", "\u{7f}\u{7f}", "`2`"])).to_string());
+        }
         let s = match k {
             KeyTy::Str => return None,
             KeyTy::U8 => *self.rng.pick(&["256", "-1", "x", "", "1.0", "0x10", " 1"]),
